@@ -97,3 +97,10 @@ func verifRoundTripBMPPeerHeader(h *BMPPeerHeader) bool {
 //@   claims bounds div0 make
 //@ func (*BMPPeerDownNotification).ParseBody
 //@   claims bounds div0 make
+
+// from C19 "without ... reading past the data": the message is cut out of the octets the caller handed over (their
+// len, not the capacity behind them) - the recover() of the function turns a slice past the capacity into an error,
+// a slice past len but within cap goes through
+//@ func parseBMPMessage
+//@   strict-len
+//@   claims bounds
